@@ -1,6 +1,6 @@
 (* C06 — cancelling a pending async acquisition leaves no trace. *)
 From Coq Require Import List Arith ZArith.
-From LK Require Import AList Model Inv StepInv NoPanic PropLemmas.
+From LK Require Import AList Model Inv StepInv NoPanic PropLemmas Seq.
 Import ListNotations.
 
 (* A pending async_lock (queued or already handed the key) can be dropped in every reachable state:
@@ -28,6 +28,17 @@ Theorem C06_cancel_stream_entry : forall c s a subs k o,
     (adel k subs <> [] -> ob = ONothing /\ aget a (s_ops s') = Some (PStreamDrop (adel k subs))) /\
     (forall k', vof s' k' = vof s k').
 Proof. intros c s a subs k o H. exact (cancel_stream_sub c s a subs k o (reachable_inv c s H)). Qed.
+
+(* "The same lasting effect as never having made the call": an async_lock on a key that is held (or
+   reserved for another waiter), run until it is pending and then dropped, ends in exactly the state it
+   started from -- same entries, values, stamps, owners, queues, replica counts, guards, calls in flight,
+   clock -- except that the key sits at the most-recently-used position, where the call's own look-up
+   put it (for the hash map: no difference at all). *)
+Theorem C06_cancel_restores_state : forall c s a k e,
+  reachable c s -> aget a (s_ops s) = None -> aget k (s_ents s) = Some e -> e_owner e <> None ->
+  seq_async_cancel c s a k =
+  ROk (mkS (aset k e (promote_if_lru c k (s_ents s))) (s_guards s) (s_ops s) (s_clock s) (s_gid s)) OCancelled.
+Proof. intros c s a k e H. exact (async_cancel_roundtrip c s a k e (reachable_inv c s H)). Qed.
 
 (* No residue: whenever no guard and no call is left, exactly the valued keys remain (= C04_quiescent).
    Together with reachable_inv this covers "the counts return to what values and live guards justify". *)
